@@ -83,6 +83,16 @@ def handle_search(job):
         p = base_dir() / 'search.xml'
         p.write_text(lmfgen.to_xml({'lmf_version': '1.1', 'lexicons': lexs}), encoding='utf-8')
         wn.add(p, progress_handler=None)
+        if case.get('extforms'):
+            x = lmfgen.mini_lexicon('X', '1')
+            x['extends'] = {'id': 'L', 'version': '1'}
+            x['entries'] = [{'id': wid, 'external': True,
+                             'forms': [{'writtenForm': f} for f in fs]}
+                            for wid, fs in sorted(case['extforms'].items()) if fs]
+            x['synsets'] = []
+            p2 = base_dir() / 'search-ext.xml'
+            p2.write_text(lmfgen.to_xml({'lmf_version': '1.1', 'lexicons': [x]}), encoding='utf-8')
+            wn.add(p2, progress_handler=None)
         o = dict(case)
         o['calls'] = []
         strings = set()
@@ -112,7 +122,11 @@ def handle_search(job):
         except JobTimeout:
             out.append({'id': case['id'], 'timeout': True})
             continue
-        for w in case['words']:
+        # the further forms an in-scope extension adds to a word are forms of the word
+        for w in o['words']:
+            extra = [f for f in (case.get('extforms') or {}).get(w[0], []) if f not in w[4]]
+            w[4] = list(w[4]) + extra
+        for w in o['words']:
             strings.add(w[3])
             strings.update(w[4])
         # the documented normalisation, computed independently of wn
